@@ -587,7 +587,7 @@ Section IV.
           - rewrite <- HVlo in Hin. apply in_map_iff in Hin. destruct Hin as [m [Em Hin]].
             apply (Hm' m Hin Em). }
         rewrite Ebs. reflexivity.
-      + apply with_tbl_ok. exact Hst'.
+      + destruct (r_best r'); [apply with_tbl_ok; exact Hst' | exact Hst'].
   Qed.
 End IV.
 
